@@ -1009,7 +1009,11 @@ def parse(
 
     cursor = conn.cursor()
 
+    checked_now = False
+
     if not hasattr(parse, "initialized_dbs") or full_db_path not in parse.initialized_dbs:
+        checked_now = True
+
         # Check if the database file is corrupt
         try:
             cursor.execute("PRAGMA integrity_check;")
@@ -1049,13 +1053,29 @@ def parse(
     # Check if the txt exists in the database
     txt_hash = _calculate_txt_hash(txt)
 
-    cursor.execute("BEGIN TRANSACTION;")
-    cursor.execute(
-        "SELECT last_hit, data FROM models WHERE txt_hash=? AND pymoca_version=?",
-        (txt_hash, pymoca_version),
-    )
-    result = cursor.fetchone()
-    conn.commit()
+    try:
+        cursor.execute("BEGIN TRANSACTION;")
+        cursor.execute(
+            "SELECT last_hit, data FROM models WHERE txt_hash=? AND pymoca_version=?",
+            (txt_hash, pymoca_version),
+        )
+        result = cursor.fetchone()
+        conn.commit()
+    except sqlite3.Error:
+        conn.close()
+        if checked_now:
+            raise
+        # The database was corrupted, replaced or removed after this process
+        # checked it: check (and if need be recreate) it again.
+        parse.initialized_dbs.discard(full_db_path)
+        return parse(
+            txt,
+            model_cache_folder,
+            cache_db,
+            cache_expiration_days,
+            always_update_last_hit,
+            bypass_cache,
+        )
 
     tree = None
 
